@@ -11,7 +11,7 @@ from ..index import AnalysisError, dotted
 from ..astutil import text, short, endswith, calls_in, walk_no_nested
 from ..dataflow import DefUse
 from ._h_F import (ifn, Res, res_of, scopes, aliases_of, is_none, isinstance_atom, call_arg, absent,
-                   canon, strip_wrappers)
+                   canon, strip_wrappers, need, repo_callees)
 
 EXPLANATION = (
   "Decides (R1) that every new value is a single lookup keyed by the old value (so swaps work): "
@@ -126,8 +126,12 @@ def r1_single_step(run, w):
         good = r.known(n.id, lambda a, nd: isinstance(a, ast.Compare) and
                        isinstance(a.ops[0], ast.In) and text(a.left) == vp and
                        text(a.comparators[0]) in names, True, facts)
+      if not good and isinstance(leaf, ast.Call) and repo_callees(w, c1, leaf):
+        raise AnalysisError("%s: the new value comes from %s, which is not followed"
+                            % (c1.qualname, short(leaf.func, 40)))
       n_lookup += good
       ok = ok and good
+  need(n_lookup or not ok, "a lookup of the cell's value in the mapping", c1)
   run.ob(R1, c1.qualname, "return renames.get(value)", "a Choice cell maps through one lookup",
          ok and n_lookup >= 1, fi=c1.fi)
   # ---- Choice List cells: every element is renames.get(choice, choice) for choice in value
@@ -144,6 +148,11 @@ def r1_single_step(run, w):
       if is_none(leaf):
         continue
       els = r.elements(leaf, n.id)
+      if els is None:
+        if not ok:
+          continue        # already violated (the mapping is iterated): no need to understand more
+        raise AnalysisError("%s: how the renamed Choice List %s is built is not understood"
+                            % (c2.qualname, short(leaf, 50)))
       if not els:
         ok = False
         continue
@@ -181,8 +190,8 @@ def r1_single_step(run, w):
       ok = ok and good
     elif k in ("sub", "other") or k.startswith("method:"):
       raise AnalysisError("RenameChoices: use of the mapping not modelled: %s" % short(site))
-  if ok and not n_get:
-    ok = absent(w, ua, "a lookup of filter values in the mapping")
+  if ok:
+    need(n_get, "a lookup of filter values in the mapping", ua)
   run.ob(R1, ua.qualname, "rename(v) = renames.get(v, v) if isinstance(v, str) else v",
          "filter values map through one lookup; non-strings stay", ok and n_get >= 1, fi=ua.fi)
 
@@ -236,8 +245,7 @@ def r2_only_changed(run, w):
   els = _returned_elements(r)
   ok = bool(els) and all(el.node is not None and r.known(el.node.id, renamed_is_none, False)
                          for el in els)
-  if not els:
-    ok = absent(w, rc, "the collected (row id, value) lists")
+  need(els, "the collected (row id, value) lists", rc)
   run.ob(R2, rc.qualname, "if value is not None: row_ids.append(...); values.append(...)",
          "cells whose value is not mapped are not written", ok, fi=rc.fi)
   # ---- ChoiceListColumn: a list without any mapped element is left alone
@@ -267,25 +275,22 @@ def r2_only_changed(run, w):
         continue
       n_ret += 1
       ok = ok and r2.known(n.id, any_mapped, True, facts)
+  need(n_ret, "a return of the renamed Choice List", c2)
   run.ob(R2, c2.qualname, "if any(v in renames for v in value): ... else None",
          "a Choice List without any mapped element is left alone", ok and none_ret and n_ret >= 1,
          fi=c2.fi)
   # ---- RenameChoices
   ua, r, ps, ren, col_upd, flt_upd = _ua_parts(w)
   if len(ren) != 1:
-    if not ren:
-      absent(w, ua, "the call of <column>.rename_choices")
-    raise AnalysisError("RenameChoices: expected one rename_choices call")
+    raise AnalysisError("RenameChoices: the call of <column>.rename_choices was not identified")
   col_text = r.norm(ren[0][1].func.value, ren[0][0].id)
   is_formula = _is_formula_atom(r, col_text)
   ok = len(col_upd) == 1 and r.known(col_upd[0][0].id, is_formula, False) and \
       r.known(ren[0][0].id, is_formula, False)
-  if not col_upd:
-    ok = absent(w, ua, "the BulkUpdateRecord of the column's own table")
+  need(col_upd, "the BulkUpdateRecord of the column's own table", ua)
   run.ob(R2, ua.qualname, "if not col.is_formula(): ... BulkUpdateRecord(table_id, ...)",
          "formula columns are not written (they recalculate)", ok, fi=ua.fi)
-  if not flt_upd:
-    absent(w, ua, "the BulkUpdateRecord of _grist_Filters")
+  need(flt_upd, "the BulkUpdateRecord of _grist_Filters", ua)
   # saved filters are renamed whatever kind of column it is
   ok = bool(flt_upd) and not any(r.guarded(n.id, is_formula, False) or
                                  r.guarded(n.id, is_formula, True) for (n, c) in flt_upd)
@@ -324,19 +329,20 @@ def r2_only_changed(run, w):
     loads = [s for s in sides if isinstance(s, ast.Call) and dotted(s.func) == "json.loads"]
     other = [s for s in sides if s not in loads]
     return len(loads) == 1 and len(other) == 1 and text(other[0]) in new_texts
-  ok = bool(row_els) and bool(val_els) and \
-      all(el.node is not None and r.known(el.node.id, unchanged, False)
-          for el in row_els + val_els)
+  need(row_els and val_els, "the filter rows / texts collected for the update", ua)
+  ok = all(el.node is not None and r.known(el.node.id, unchanged, False)
+           for el in row_els + val_els)
   run.ob(R2, ua.qualname, "if col_filter != new_filter: collect", "unchanged filters are not "
          "rewritten", ok, fi=ua.fi)
   want_ref = "self._docmodel.get_column_rec(%s, %s).id" % tuple(ps[1:3])
   def this_columns_filters(el):
     if len(el.loops) != 1:
-      return False
+      raise AnalysisError("RenameChoices: the loop that collects filters was not identified")
     it = r.expand(el.loops[0][1], el.node.id)
     if not (isinstance(it, ast.Call) and isinstance(it.func, ast.Attribute) and
             it.func.attr == "filter_records" and not it.args):
-      return False
+      raise AnalysisError("RenameChoices: the filters are not taken from a filter_records(...) "
+                          "call that can be read (%s)" % short(it, 60))
     kws = {k.arg: text(k.value) for k in it.keywords}
     return kws == {"colRef": want_ref} and \
         text(it.func.value) == "self._engine.tables['_grist_Filters']"
@@ -397,6 +403,7 @@ def r3_row_domain(run, w):
       if not (isinstance(v, ast.Tuple) and len(v.elts) == 2):
         raise AnalysisError("rename_choices: result is not a (row ids, values) pair")
       ids += r.elements(v.elts[0], n.id) or []
+    need(ids, "the row ids collected for the result", rc)
     ok = bool(ids) and all(
       len(el.loops) == 1 and isinstance(el.loops[0][0], ast.Name) and
       r.norm(el.loops[0][1], el.node.id) == ps[2] and text(el.elt) == el.loops[0][0].id
@@ -404,7 +411,8 @@ def r3_row_domain(run, w):
   run.ob(R3, rc.qualname, "for row_id in <row ids parameter>", "candidate rows are the rows the "
          "caller names", ok, fi=rc.fi)
   ua, r, ps, ren, col_upd, flt_upd = _ua_parts(w)
-  ok = len(ren) == 1
+  need(len(ren) == 1, "the call of <column>.rename_choices", ua)
+  ok = True
   if ok:
     n, c = ren[0]
     rows = call_arg(c, 1, "table_row_ids")
@@ -413,7 +421,8 @@ def r3_row_domain(run, w):
   run.ob(R3, ua.qualname, "col.rename_choices(renames, table.row_ids)",
          "the rows considered are exactly the table's existing rows", ok, fi=ua.fi)
   # the ids returned by rename_choices are the ids given to the update action
-  ok = len(col_upd) == 1 and len(ren) == 1
+  need(len(col_upd) == 1, "the BulkUpdateRecord of the column's own table", ua)
+  ok = True
   if ok:
     n, c = col_upd[0]
     a = call_arg(c, 1, "row_ids")
